@@ -9,7 +9,8 @@
 //     case, observing status, headers and everything a querier / exemplar querier returns after
 //     each request.
 //
-// A third kind of case runs the real writev2.SymbolsTable on generated label sets.
+// A third kind of case runs the real writev2.SymbolsTable on generated label sets, a fourth sends
+// generated native histograms through the real histogram codec of either protocol.
 package main
 
 import (
@@ -267,14 +268,6 @@ func (g *genCtx) mode() int {
 	default:
 		return 4
 	}
-}
-
-type serDesc struct {
-	Labels string `json:"labels"`
-	Class  string `json:"class"`
-	S      []smp  `json:"samples,omitempty"`
-	H      []hst  `json:"hists,omitempty"`
-	E      []exm  `json:"exemplars,omitempty"`
 }
 
 func (g *genCtx) genRequest(v2 bool, dist func(string)) *request {
@@ -571,7 +564,7 @@ func ver(v2 bool) string {
 func main() {
 	f := gallina.ParseFlags()
 	meta := gallina.NewMeta("C41", f.Seed, f.Tier)
-	meta.Rule = "corpus of fixed reproducers, then seeded generated cases of three kinds: (rec) one request (1.0 or 2.0) against the real handler over a recording appendable with a scripted outcome per append call; (head) a sequence of 1-3 requests against the real handler over a real tsdb.Head; (sym) label sets through the real writev2.SymbolsTable. non-trivial = at least one append call reached the appendable (rec), at least one sample stored (head), at least one label (sym); distinct by the printed case term"
+	meta.Rule = "corpus of fixed reproducers, then seeded generated cases of three kinds: (rec) one request (1.0 or 2.0) against the real handler over a recording appendable with a scripted outcome per append call; (head) a sequence of 1-3 requests against the real handler over a real tsdb.Head; (sym) label sets through the real writev2.SymbolsTable; (hist) native histograms through the real From*Histogram -> Marshal -> Unmarshal -> To*Histogram of either protocol. non-trivial = at least one append call reached the appendable (rec), at least one sample stored (head), at least one label (sym), at least one bucket (hist); distinct by the printed case term"
 	cf := &gallina.CaseFile{Dir: f.Out, Type: "case", PerShard: 400,
 		Preamble: "From Coq Require Import List ZArith Bool Uint63.\nFrom Verif Require Import model.WriteReq corr.CorrC41.\nImport ListNotations.\nOpen Scope uint63_scope.\n",
 		Footer:   gallina.StdFooter}
@@ -762,7 +755,7 @@ func main() {
 	emitSym([][]lbl{{{"__name__", "m"}, {"a", "m"}, {"b", ""}}, {{"a", "m"}}})
 
 	// ----- generated -----
-	nRec := f.Count(260, 5000)
+	nRec := f.Count(200, 5000)
 	for i := 0; i < nRec; i++ {
 		r := gen.Fork(f.Seed, i)
 		g := &genCtx{r: r, clock: 1000}
@@ -779,7 +772,7 @@ func main() {
 		}
 		emitRec(req, script, !r.Chance(1, 15), "")
 	}
-	nHead := f.Count(170, 3000)
+	nHead := f.Count(130, 3000)
 	for i := 0; i < nHead; i++ {
 		r := gen.Fork(f.Seed, 1000000+i)
 		g := &genCtx{r: r, head: true, clock: 1000}
@@ -798,7 +791,7 @@ func main() {
 		}
 		emitHead(reqs, exon, "")
 	}
-	nSym := f.Count(40, 500)
+	nSym := f.Count(30, 500)
 	for i := 0; i < nSym; i++ {
 		r := gen.Fork(f.Seed, 2000000+i)
 		g := &genCtx{r: r}
@@ -808,6 +801,28 @@ func main() {
 			lss = append(lss, ls)
 		}
 		emitSym(lss)
+	}
+	nHist := f.Count(80, 2500)
+	for i := 0; i < nHist; i++ {
+		r := gen.Fork(f.Seed, 3000000+i)
+		body, nontrivial, cls, negz := histCase(r)
+		if seen["hist"+body] {
+			continue
+		}
+		seen["hist"+body] = true
+		cf.Add(fmt.Sprintf("RCHist %d %s", id, body))
+		meta.Hit(cls)
+		if nontrivial {
+			meta.Nontrivial++
+		}
+		shape := "hist"
+		if negz {
+			shape = "codec-negative-zero-becomes-positive"
+			meta.Hit("hist:negative-zero-scalar")
+		}
+		meta.Case(id, map[string]any{"kind": "hist", "shape": shape, "index": i, "term": body})
+		meta.Evaluations++
+		id++
 	}
 	cf.Flush()
 	meta.Write(f.Out)
